@@ -539,7 +539,73 @@ def closer_table(m: FnModel, rep, rule: str) -> None:
           'distance shaping does not have the sign of the change in distance')
 
 
+def object_search(index: RepoIndex, rep, rule: str) -> None:
+    """the object a distance is measured to: in the three distance rewards, the argument of
+    `one(..)` / `next(..)` denotes the positions of the grid of the helper's own state whose
+    cell is an instance of the requested type -- read as a cell stream (E16), so a scan of
+    `area.positions()`, of the rows, or of a flat enumeration decoded by `divmod(i, width)` are
+    the same denotation, and a flat index decoded by the height is not.  A search the stream
+    reader cannot read is recorded as undecided (the textual facet of C12.R1 still applies)."""
+    from ..cellstream import StreamReader
+    from ..inline import inline_methods_by_name
+    FIRST = {'mitt.one', 'one', 'more_itertools.one', 'next', 'mitt.first', 'first',
+             'mitt.only', 'only'}
+    for name in ('proportional_to_distance', 'getting_closer', 'getting_closer_shortest_path'):
+        f = index.func(REWARD, name)
+        scopes = [f.node] + [n for n in ast.walk(f.node)
+                             if isinstance(n, ast.FunctionDef) and n is not f.node]
+        called = {n.func.id for sc in scopes for n in ast.walk(sc)
+                  if isinstance(n, ast.Call) and isinstance(n.func, ast.Name)}
+        for hn in sorted(called):
+            h = f.module.functions.get(hn)
+            if h is not None and h.node not in scopes and not h.node.decorator_list:
+                scopes.append(h.node)
+        found = 0
+        for sc in scopes:
+            own = [n for n in ast.walk(sc) if isinstance(n, ast.Call) and src(n.func) in FIRST
+                   and n.args and not any(n in ast.walk(o) for o in scopes
+                                          if o is not sc and o in ast.walk(sc))]
+            if not own:
+                continue
+            w = walk_function(sc)
+            params = {a.arg for a in sc.args.posonlyargs + sc.args.args + sc.args.kwonlyargs}
+            for c in own:
+                arg = c.args[0]
+                if isinstance(arg, ast.Call) and src(arg.func) == 'iter' and len(arg.args) == 1:
+                    arg = arg.args[0]
+                x = inline_methods_by_name(index, w.expand(arg), new_only=True)
+                rd = StreamReader(index, f.module, w)
+                st = rd.read(x)
+                site = f'{name}:{sc.name}:{src(c)[:50]}'
+                if rd.problems:
+                    rep.violation(rule, REWARD, name, c.lineno, src(c)[:120],
+                                  f'{name}: the object position is mis-decoded: '
+                                  + '; '.join(rd.problems) + ' -- on a non-square grid the '
+                                  'distance is measured to a cell that does not hold the object')
+                    found += 1
+                    continue
+                if st is None:
+                    rep.undecided(rule, site, f'search `{src(x)[:60]}` is not a cell stream the '
+                                  f'reader understands')
+                    continue
+                found += 1
+                root = st.grid.split('.')[0]
+                filt = sorted(src(c_) for c_ in st.filters)
+                okf = len(filt) == 1 and filt[0].startswith('isinstance(O, ') and \
+                    filt[0][len('isinstance(O, '):-1].endswith('object_type')
+                rep.check(st.kind == 'cells' and st.grid.endswith('.grid') and root in params
+                          and okf, rule, REWARD, name, c.lineno, src(c)[:120],
+                          f'{name}: the distance is measured to {st.kind} of `{st.grid}` '
+                          f'filtered by {filt}, not to the cell of the state\'s grid that holds '
+                          f'the requested object type', f'{name} object search in {sc.name}')
+        if not found:
+            rep.undecided(rule, f'{name}:search', 'no readable search for the object position')
+
+
 def run(index: RepoIndex, rep) -> None:
+    rep.rule('C12.R7', 'the distance rewards locate the object as the cell of the state\'s grid '
+             'holding the requested type (cell-stream denotation of the search)', floor=1)
+    object_search(index, rep, 'C12.R7')
     rep.rule('C12.R1', 'decision tables of the reward / terminating components', floor=12)
     rep.rule('C12.R2', 'which of state / next_state each component reads', floor=6)
     rep.rule('C12.R3', 'delegation and sibling agreement between reward and termination',
